@@ -35,7 +35,7 @@ MinOf(a, b)   == IF a < b THEN a ELSE b
 (* Which operations exist in which phase.  get_unchecked is documented as  *)
 (* unchecked: it exists only inside its precondition.                      *)
 (***************************************************************************)
-BuilderOps == {"push", "extend", "blen", "build"}
+BuilderOps == {"push", "extend", "blen", "print_stats", "build"}
 WholeIter  == {"iter", "into_iter", "lend", "into_lender", "clone"}
 FromIter   == {"iter_from", "into_iter_from", "lend_from"}
 ListOps    == {"len", "len_trait", "is_empty", "get", "get_unchecked", "get_in_place",
@@ -87,7 +87,8 @@ IterFrom(j) ==
 (* vectors (72 bytes at most on a 64-bit target), rounded up to 128.       *)
 (***************************************************************************)
 SumLen   == FoldSeq(LAMBDA s, acc : acc + Len(s), 0, strs)
-MemBound == SumLen + 10 * N + 8 * CeilDiv(N, IF k = 0 THEN 1 ELSE k) + 128
+Blocks   == IF N = 0 THEN 0 ELSE IF k >= N \/ k = 0 THEN 1 ELSE CeilDiv(N, k)   \* (k may be the "huge" sentinel)
+MemBound == SumLen + 10 * N + 8 * Blocks + 128
 
 (***************************************************************************)
 (* Eff(op): admissible outcomes, result and next state of one public call. *)
@@ -100,6 +101,9 @@ Eff(op) ==
     [] o = "push"    -> Unit(St(phase, k, Append(strs, op.s)))
     [] o = "extend"  -> Unit(St(phase, k, strs \o op.strs))
     [] o = "blen"    -> Ret(N)
+    \* diagnostic printing: the properties say nothing about it; like every call
+    \* it must return or panic (C12) and it must not disturb the builder
+    [] o = "print_stats" -> [outs |-> {"ret", "panic"}, rk |-> "none", res |-> <<>>, hints |-> <<>>, st |-> Same]
     [] o = "build"   -> Unit(St("built", k, strs))
     [] o \in {"len", "len_trait"} -> Ret(N)
     [] o = "is_empty" -> Ret(N = 0)
